@@ -3,6 +3,35 @@
 import json, subprocess, sys
 ALL = ["C%02d" % i for i in range(1, 21)]
 CHECKS = {
+ "C06": dict(level="exploration", ref="DESIGN.md §3 C06",
+   technique="passive runtime monitor: every frame emitted in TCP, option and multi-interface sweeps is decoded by an independent RFC codec (lengths, checksums, option grammar, IP identification) and its addressing compared with the socket / answered packet / an independent first-match route lookup",
+   text="About 150 000 frames per quick run (millions in thorough) of TCP (IPv4/IPv6, all option combinations incl. 1-4 SACK blocks, retransmissions), UDP (boundary lengths), ICMP echo replies on stacks with 1-3 interfaces and PRNG-ordered overlapping routes are each checked by h/rfc; source address/interface are compared with a reference route lookup, ports and addresses with the socket or the packet being answered.",
+   note="Trusted: h/rfc (independent of /repo); only frames the workloads elicit are judged. The fd-based Ethernet link is exercised by C07."),
+ "C07": dict(level="exploration", ref="DESIGN.md §3 C07",
+   technique="child-process isolation with on-disk witness: structure-aware mutated frames, exhaustive small-scope fragment sequences and noise are injected into a real stack; process death (panic site) and logical liveness probes in virtual time are the oracle; fd-based link over a socketpair; concurrent barrage under the race detector",
+   text="Each batch of frames is written to disk and each frame index logged before injection, so a crash names its input. After every batch the stack must answer one echo request, accept a new TCP connection with its data readable, and deliver a UDP datagram (virtual time, fresh ports, queues drained first). The fd-based link is driven with runt and hostile Ethernet frames; its close callback and an echo probe are observed.",
+   note="Trusted: corpus/mutators in h/c07; a panic whose innermost repository frame lies under /repo is the violation; watchdog expiry is inconclusive."),
+ "C09": dict(level="exploration", ref="DESIGN.md §3 C09",
+   technique="runtime reference-model monitor: every inbound packet of a full cross product is attributed by unique payload to the socket that received it and compared with an independent specificity matcher; TCP SYNs judged by SYN-ACK / reset counting",
+   text="PRNG-built sets of up to 10 UDP/TCP sockets (wildcard, specific, interface-bound, address+interface, connected with/without interface, listeners) on two interfaces with open/close and address removal, then all (interface x destination x port x source x source port) packets are injected and every socket is read after each one.",
+   note="Trusted: the reference matcher in h/c09. Known finding: a removed address stays served while a connected socket references it."),
+ "C11": dict(level="exploration", ref="DESIGN.md §3 C11",
+   technique="runtime monitor with self-identifying datagrams (sender, counter, length, pattern): Read results checked for integrity, arrival order, at-most-once and true sender; every successful Write paired with exactly one emitted packet decoded by the independent codec; concurrent readers under the race detector",
+   text="1-8 senders over IPv4, IPv6 and v4-on-dual-stack, lengths 12..65507 incl. datagrams delivered as up to 25 fragments, sockets bound/specific/IPv6/dual-stack/connected, lagging readers (buffer pressure), read-side shutdown and reconnect; writes of 0..66000 bytes on unbound/bound/connected/sendto sockets.",
+   note="Trusted: payload code and h/rfc. UDP delivery is synchronous, so no virtual time is needed."),
+ "C12": dict(level="exploration", ref="DESIGN.md §3 C12",
+   technique="scripted neighbour against a real stack on a resolution-required harness link in virtual time: ARP/NDP replies decoded by the independent codec, a reference neighbour table, and the exact virtual-time schedule of resolution requests",
+   text="ARP requests/replies (own, foreign, malformed), learning and non-learning, expiry after virtual minutes, overwrite, cache overflow and ring wrap-around during a wait; UDP writes and TCP connects toward unresolved next hops with the neighbour answering the 1st/2nd/3rd request or never: no data before resolution, requests 1 s apart, at most three, then proceed to the learned MAC or fail with the no-link-address error; IPv6 NS/NA.",
+   note="Trusted: virtual time (synctest); reference table in h/c12."),
+ "C13": dict(level="exploration", ref="DESIGN.md §3 C13",
+   technique="request/reply matching at the tap in virtual time: unique (id, seq, payload) echo requests built by the independent codec, replies decoded and checksum-verified by it",
+   text="One-at-a-time requests (exactly one mirrored reply from the pinged address, none for foreign/unassigned addresses), every payload length 0..MTU over the sweep, IPv4 fragmented requests, IPv6, id/seq strides and boundaries; bursts of 9 (all answered) and 50 (sub-multiset); transmit stall + overflow + address removal.",
+   note="Trusted: h/rfc; quiescence before reading the tap (the ICMPv4 replier is a separate goroutine). Odd intermediate view sizes are recorded, not judged (no bundled link produces them)."),
+ "C20": dict(level="exploration", ref="DESIGN.md §3 C20",
+   technique="end-to-end runtime monitor in virtual time: bundled HTTP/WebSocket client and server over the stack's own TCP on a loop-back harness link; handler arguments and client results compared with what was sent; both TCP byte streams reassembled from the tap and parsed independently (status line, accept key, RFC 6455 frames incl. masked ones from a raw-endpoint client)",
+   text="Hundreds (quick) to tens of thousands of exchanges: GET/HEAD/POST/PUT, registered/unregistered paths, 0-8 headers, bodies to 900 bytes; WebSocket sessions of 1-6 messages around the 125/126/65535/65536 boundaries up to 100 000 (300 000) bytes, unmasked via the bundled client and masked (zero, ones, PRNG keys) via an independent encoder.",
+   note="Trusted: independent HTTP/RFC 6455 parsing in h/c20. The bundled server's late waiter registration (schedule-dependent) is avoided by a 10 ms virtual pause."),
+
  "C01": dict(level="exploration", ref="DESIGN.md §3 C01",
    technique="runtime monitor at the API boundary with position-coded payloads over two real stacks joined by an adversarial wire (drop/duplicate/delay/reorder/replay), bulk in virtual time (testing/synctest), subset in real time under the race detector",
    text="Every byte returned by Read is compared with the byte written at that stream offset and must lie below the bytes offered to Write so far; scenarios vary IP version, SACK, congestion controller, MTU, buffers, chunking, reader pacing, fault mix and ISS placement (streams crossing 2^31/2^32 are counted from the wire). Exploration: the schedule of goroutines is not pinned; hundreds (quick) to tens of thousands (thorough) of scenarios.",
@@ -58,7 +87,7 @@ CHECKS = {
    text="Every exported seqnum function is executed on boundary lattices around every power of two from wrap-adjacent base points, a strided sweep (thorough: all 2^32 distances per base) and PRNG tuples, and each result is compared with the serial-number definition evaluated in 64-bit integers. Exploration, not proof: the operand space of the 3- and 4-argument functions is sampled.",
    note="Trusted: the 64-bit reference definitions in h/c14 (written from the statement). Antipodal distance, empty windows and spans >= 2^31 are recorded, not judged."),
 }
-NOT_BUILT = "check not built yet in this round (planned in DESIGN.md §3)"
+NOT_BUILT = "not claimed"
 def hooks_commits():
     out = subprocess.run(["git","-C","/repo","log","--format=%H %s"],capture_output=True,text=True).stdout
     return [l.split()[0] for l in out.splitlines() if "verif hook:" in l]
